@@ -155,6 +155,10 @@ class Run:
                 continue
             if any(v[0] == key for v in self.violations):
                 continue
+            if len(self.violations) >= 24:
+                # enough distinct, individually re-run violations to act on; the remaining rejected lines are only counted
+                self.extra["further_rejected_lines_not_reconfirmed"] = self.extra.get("further_rejected_lines_not_reconfirmed", 0) + 1
+                continue
             if confirm is not None and not confirm(ev, labels):
                 self.notes.append("rejection of %s not reproduced on re-run (ignored)" % key)
                 continue
